@@ -672,6 +672,144 @@ func bigCase(r *vlib.Rand, size int, pq bool) Case {
 	return c
 }
 
+// largeCase: one history per run (every tier, quick included) on a heap / queue that holds several
+// hundred items (target 300..600, far beyond the <= 160-op random histories): built by the constructor,
+// grown by pushes / updates of new keys, then a mixed phase of every operation at that size. Checked
+// with the full monitor (every Pop / Peek against the reference, sorted drain) and the full
+// correspondence (observation + array dump after every op). A change of the code that is guarded by a
+// size (`if len(h.a) <= 200 {...}`) is invisible below that size.
+func largeCase(r *vlib.Rand, pq bool) Case {
+	target := r.Range(300, 600)
+	if pq {
+		c := Case{Kind: "pq", Ord: hc.Orders[r.Intn(3)], Ctor: hc.PickCtor(r), U: 8}
+		keys := 2 * target
+		prio := func() int { return r.Intn(target / 3) }
+		held := map[int]bool{}
+		var heldList []int
+		add := func(k int) {
+			if !held[k] {
+				held[k] = true
+				heldList = append(heldList, k)
+			}
+		}
+		del := func(k int) {
+			if held[k] {
+				delete(held, k)
+				for i, x := range heldList {
+					if x == k {
+						heldList = append(heldList[:i], heldList[i+1:]...)
+						break
+					}
+				}
+			}
+		}
+		anyHeld := func() int { return heldList[r.Intn(len(heldList))] }
+		for i := 0; i < target/3; i++ {
+			k := r.Intn(keys)
+			c.Init = append(c.Init, [2]int{k, prio()})
+			add(k)
+		}
+		// grow: updates of new keys, now and then an existing one
+		for len(heldList) < target {
+			if len(heldList) > 0 && r.Chance(1, 5) {
+				c.Ops = append(c.Ops, Op{Name: "update", A: anyHeld(), B: prio()})
+			} else {
+				k := r.Intn(keys)
+				c.Ops = append(c.Ops, Op{Name: "update", A: k, B: prio()})
+				add(k)
+			}
+		}
+		// mixed phase at full size; qpop removes a key the generator does not know: resolve it on a shadow
+		shadow := hc.NewImplSafe(c)
+		for _, o := range c.Ops {
+			shadow.Apply(o)
+		}
+		do := func(o Op) string {
+			c.Ops = append(c.Ops, o)
+			return shadow.Apply(o)
+		}
+		for i := 0; i < target/2; i++ {
+			switch r.Pick(4, 3, 4, 3, 1, 1, 1, 1, 1) {
+			case 0: // existing key, lower / higher / equal priority
+				do(Op{Name: "update", A: anyHeld(), B: prio()})
+			case 1:
+				k := r.Intn(keys)
+				do(Op{Name: "update", A: k, B: prio()})
+				add(k)
+			case 2:
+				if got := do(Op{Name: "qpop"}); got != "panic" {
+					if k, err := strconv.Atoi(got); err == nil {
+						del(k)
+					}
+				}
+			case 3:
+				if len(heldList) > 0 {
+					k := anyHeld()
+					do(Op{Name: "remove", A: k})
+					del(k)
+				}
+			case 4:
+				do(Op{Name: "remove", A: keys + r.Intn(10)}) // absent
+			case 5:
+				do(Op{Name: "qpeek"})
+			case 6:
+				if len(heldList) > 0 {
+					do(Op{Name: "priority", A: anyHeld()})
+				}
+			case 7:
+				do(Op{Name: "contains", A: r.Intn(keys)})
+			case 8:
+				do(Op{Name: "qlen"})
+			}
+			if len(heldList) == 0 {
+				break
+			}
+		}
+		return c
+	}
+	c := Case{Kind: "heap", Ord: hc.Orders[r.Intn(3)], Ctor: hc.PickCtor(r)}
+	prio := func() int { return r.Intn(target / 4) } // many ties
+	id, size := 0, 0
+	for i := 0; i < target/3; i++ {
+		id++
+		c.Init = append(c.Init, [2]int{prio(), id})
+		size++
+	}
+	for size < target {
+		if r.Chance(1, 6) && size > 0 {
+			c.Ops = append(c.Ops, Op{Name: "pop"})
+			size--
+		} else {
+			id++
+			c.Ops = append(c.Ops, Op{Name: "push", A: prio(), B: id})
+			size++
+		}
+	}
+	for i := 0; i < target/2; i++ {
+		switch r.Pick(5, 5, 1, 1, 1, 1) {
+		case 0:
+			id++
+			// small priorities: the pushed item has to travel all the way up
+			c.Ops = append(c.Ops, Op{Name: "push", A: r.Intn(3), B: id})
+			size++
+		case 1:
+			if size > 0 {
+				c.Ops = append(c.Ops, Op{Name: "pop"})
+				size--
+			}
+		case 2:
+			c.Ops = append(c.Ops, Op{Name: "peek"})
+		case 3:
+			c.Ops = append(c.Ops, Op{Name: "len"})
+		case 4:
+			c.Ops = append(c.Ops, Op{Name: "grow", A: r.Intn(50)})
+		case 5:
+			c.Ops = append(c.Ops, Op{Name: "shrink", A: r.Intn(4)})
+		}
+	}
+	return c
+}
+
 // stats classifies what a case reaches (distribution + the non-triviality rule).
 func stats(c Case, res *vlib.Result) bool {
 	im := hc.NewImplSafe(c)
@@ -697,6 +835,8 @@ func stats(c Case, res *vlib.Result) bool {
 	switch {
 	case maxSize >= 1000:
 		res.Count("size>=1000")
+	case maxSize > 200:
+		res.Count("size>200")
 	case maxSize >= 32:
 		res.Count("size>=32")
 	case maxSize >= 8:
@@ -1068,7 +1208,7 @@ func main() {
 		"4 priority ranges from all-ties to wide; with and without an initial slice) and PriorityQueue histories (Update new / existing lower, higher, equal, to a tie; "+
 		"Remove of the key at the first / last / a leaf / an inner array position and of absent keys; Pop/Peek/Contains/Priority/Len; initial lists with duplicate keys), "+
 		"3 orders x constructors (less; compare functions returning -1/0/+1, key differences, +-1000, MinInt64/MaxInt64), plus the corpus and a directed pass over every order x constructor; a case is non-trivial if it has >= 5 ops, reaches size >= 3 and pops / removes / re-prioritises an element at size >= 3; "+
-		"distinct = different constructor + op sequence. thorough adds every insertion order of <= 7 priorities with every tie pattern (built by pushes and by the constructor, heap and queue) "+
+		"every run (quick included) has one heap and one queue history that hold 300..600 items (constructor, growth, then every operation at that size) under the full monitor and the full array-level correspondence; distinct = different constructor + op sequence. thorough adds every insertion order of <= 7 priorities with every tie pattern (built by pushes and by the constructor, heap and queue) "+
 		"x every single follow-up op (each base counts as one distinct non-trivial case) and heaps / queues up to 10^4 elements")
 	m, err := vlib.StartModel(env.Driver, "heap")
 	if err != nil {
@@ -1123,6 +1263,21 @@ func main() {
 	}
 	r := vlib.NewRand(env.Seed)
 	deadline := env.Deadline()
+	// the size tier: one large heap and one large queue in every run (quick too), full monitor and full
+	// correspondence at that size
+	for _, pq := range []bool{false, true} {
+		var c Case
+		fr := r.Fork()
+		if p, v := vlib.Try(func() {
+			c = largeCase(fr, pq)
+			res.Count("large-" + c.Kind)
+			res.CountN("large-ops", len(c.Ops))
+			res.Case(c.Key(), stats(c, res), nil)
+			check(c, m, res)
+		}); p {
+			res.Fail(vlib.Failure{Source: "correspondence", Kind: "heap-harness-panic", What: fmt.Sprintf("harness panic in the large case: %v", v), Case: c.Text()})
+		}
+	}
 	maxCases := 4000
 	if env.Thorough() || env.Deep {
 		maxCases = 80000
